@@ -160,3 +160,38 @@ Proof.
   cbv [dot vsub vscale vx vy vz fst snd ROps mul add sub]. ring.
 Qed.
 
+
+(* ---------------------------------------------------------------- *)
+(* translation x |-> x + t: area vectors and the sign test do not change at
+   all — facets, signs and normals of a mesh far from the origin are those of
+   the mesh at the origin (offset stream of the correspondence check) *)
+Lemma vsum_translate : forall t (l : list RV3),
+  vsum ROps (map (vadd ROps t) l) = vadd ROps (vscale ROps (of_nat ROps (length l)) t) (vsum ROps l).
+Proof.
+  intros [[t1 t2] t3] l. induction l as [| [[x y] z] r IH].
+  - cbv. apply triple_eq; ring.
+  - cbn [map vsum fold_right length of_nat]. fold (vsum ROps (map (vadd ROps (t1, t2, t3)) r)). rewrite IH.
+    fold (vsum ROps r). destruct (vsum ROps r) as [[a b] c].
+    generalize (of_nat ROps (length r)) as n. intro n.
+    cbv [vadd vscale vx vy vz fst snd ROps mul add one]. apply triple_eq; ring.
+Qed.
+
+Lemma varea2_translate : forall t (pts : list RV3),
+  varea2 ROps (map (vadd ROps t) pts) = varea2 ROps pts.
+Proof.
+  intros [[t1 t2] t3] pts.
+  destruct pts as [| [[? ?] ?] [| [[? ?] ?] [| [[? ?] ?] [| [[? ?] ?] [| [[? ?] ?] r]]]]];
+    cbv [map varea2 vadd cross vzero vx vy vz fst snd ROps mul add sub zero];
+    try reflexivity; apply triple_eq; ring.
+Qed.
+
+Lemma outward2_translate : forall t (cell face : list RV3),
+  outward2 ROps (map (vadd ROps t) cell) (map (vadd ROps t) face) = outward2 ROps cell face.
+Proof.
+  intros t cell face. unfold outward2.
+  rewrite !vsum_translate, varea2_translate, !map_length.
+  unfold RV3, V3 in *. set (a := of_nat ROps (length cell)). set (b := of_nat ROps (length face)). clearbody a b.
+  destruct (vsum ROps face) as [[f1 f2] f3]. destruct (vsum ROps cell) as [[c1 c2] c3].
+  destruct (varea2 ROps face) as [[w1 w2] w3]. destruct t as [[t1 t2] t3].
+  cbv [dot vsub vadd vscale vx vy vz fst snd ROps mul add sub]. ring.
+Qed.
